@@ -389,6 +389,31 @@ func runC13(r *Runner, tier string, rng *Rng) {
 			if rng.Chance(20) {
 				lstrip = append(lstrip, "r2/")
 			}
+			if rng.Chance(40) {
+				// several prefixes, where what remains after the first match starts with another one:
+				// only the FIRST matching prefix may be removed (seeded change c13-lstrip-all-prefixes)
+				lstrip = nil
+				root := "r1"
+				if len(roots) > 0 {
+					root = filepath.Clean(str(roots[0].(map[string]any)["path"]))
+				}
+				inner := treeNames[rng.Intn(len(treeNames))]
+				lstrip = append(lstrip, root+"/")
+				switch rng.Intn(4) {
+				case 0:
+					lstrip = append(lstrip, inner[:1])
+				case 1:
+					lstrip = append(lstrip, root+"/"+inner+"/", inner+"/")
+				default:
+					lstrip = append(lstrip, inner+"/")
+				}
+				if rng.Chance(30) {
+					lstrip = append(lstrip, rng.Pick([]string{"zzz/", "r2/", "sub/", "lib/", "a"}))
+				}
+				if rng.Chance(25) {
+					lstrip[0], lstrip[1] = lstrip[1], lstrip[0]
+				}
+			}
 		}
 		ignored := map[string]any{}
 		var pats []string
@@ -515,5 +540,5 @@ func runC13(r *Runner, tier string, rng *Rng) {
 		}
 	}
 	flush()
-	r.St.Rule = "generated directory trees (depth <= 4, empty / binary / CR-LF-mix contents, symlinks to files and to symlink-free directories, dangling links, 1-2 roots incl. unclean and missing root paths and single-file roots), every subset class of sha256/384/512 plus unknown names and the empty list, normalisation and follow switches, gitignore-style exclude patterns (verdict = go-pathspec oracle), strip prefixes (symlink-free trees); digests from crypto/sha*; plus: normalisation against the model's byte function, match-products three-way difference, before/after discipline of run and record start/stop, symlink cycles (error or correct record, never crash/hang). Class = (switches, shapes, outcome prefix)."
+	r.St.Rule = "generated directory trees (depth <= 4, empty / binary / CR-LF-mix contents, symlinks to files and to symlink-free directories, dangling links, 1-2 roots incl. unclean and missing root paths and single-file roots), every subset class of sha256/384/512 plus unknown names and the empty list, normalisation and follow switches, gitignore-style exclude patterns (verdict = go-pathspec oracle), strip prefixes (symlink-free trees; 1-3 prefixes, also such that the remainder after the first match starts with another prefix); digests from crypto/sha*; plus: normalisation against the model's byte function, match-products three-way difference, before/after discipline of run and record start/stop, symlink cycles (error or correct record, never crash/hang). Class = (switches, shapes, outcome prefix)."
 }
